@@ -340,6 +340,17 @@ REGISTERED_TYPES = (uuid.UUID, decimal.Decimal, Early, Money, TaxedMoney, Tip, E
                     Point, Level)
 
 
+def _ser_proxy(obj):
+    # the tag krrood's own UUID serializer writes: module + qualified name - 'builtins.mappingproxy' is not a name
+    # that can be imported
+    return {"__json_type__": _tag(type(obj)), "items": [[k, to_json(v)] for k, v in obj.items()]}
+
+
+def _deser_proxy(data, **kwargs):
+    import types
+    return types.MappingProxyType({k: from_json(v) for k, v in data["items"]})
+
+
 def register():
     reg = JSONSerializableTypeRegistry()
     reg.register(decimal.Decimal, _ser_decimal, _deser_decimal)
@@ -352,3 +363,5 @@ def register():
     reg.register(collections.deque, _ser_deque, _deser_deque)  # an iterable registered type
     reg.register(Point, _ser_point, _deser_point)              # registered types that derive from builtins
     reg.register(Level, _ser_level, _deser_level)
+    import types
+    reg.register(types.MappingProxyType, _ser_proxy, _deser_proxy)   # a registered type whose tag is no importable path
